@@ -6,7 +6,8 @@ Reads (comments stripped, whitespace normalised)
   breakpad-symbols/src/sym_file/mod.rs     SymbolFile::fill_symbol, find_nearest_public
   breakpad-symbols/src/sym_file/types.rs   Function::{memory_range, get_outermost_sourceloc, get_innermost_sourceloc,
                                            get_inlinee_at_depth}; field order of PublicSymbol / Inlinee (derived Ord)
-  breakpad-symbols/src/sym_file/parser.rs  finish_item (Line::Function arm), finish (publics.sort, FUNC table builder)
+  breakpad-symbols/src/sym_file/parser.rs  finish_item (Line::Function arm), finish (publics.sort, FUNC table builder),
+                                           insert_win_stack_info, the parser-local into_rangemap_safe (merge step)
   breakpad-symbols/src/lib.rs              Symbolizer::fill_symbol, get_symbol_at_address
   minidump-unwind/src/lib.rs               fill_source_line_info
 Every function body must match a template.  The template's literal text pins the statement structure; its holes
@@ -267,6 +268,31 @@ for need in ("if let Some(item) = self.cur_item.take() { self.finish_item(item);
     if need not in fin:
         die("SymbolParser::finish (parser.rs): `%s` not found" % need)
 
+WI = "insert_win_stack_info (parser.rs)"
+wi = match("if let Some(memory_range) = info.memory_range() { if let Some((last_range, last_info)) = stack_win.last_mut() { "
+           "if last_range.intersects(&memory_range) { if <c_l:opd> <c_op:cmp> <c_r:opd> { "
+           "last_info.size = (<s_l:opd> - <s_r:opd>) as u32; *last_range = last_info.memory_range().unwrap(); } "
+           "else if *last_range != memory_range { warn!( \"STACK WIN entry had bad intersections, dropping it {:?}\", info ); return; } } } "
+           "stack_win.push((memory_range, info)); } else { warn!(\"STACK WIN entry had invalid range, dropping it {:?}\", info); }",
+           block_after(pa, r"fn insert_win_stack_info\(", WI), WI)
+E_WI = {"info.address": "(w_addr w)", "last_info.address": "(w_addr lw)", "info.size": "(w_size w)", "last_info.size": "(w_size lw)"}
+if not re.search(r"match frame_type \{\s*WinFrameType::FrameData\(s\) => \{\s*insert_win_stack_info\(&mut self\.win_stack_framedata_info, s\);\s*\}"
+                 r"\s*WinFrameType::Fpo\(s\) => \{\s*insert_win_stack_info\(&mut self\.win_stack_fpo_info, s\);\s*\}\s*_ => \{\}", pa):
+    die("parser.rs: STACK WIN records are no longer filed FrameData -> win_stack_framedata_info, Fpo -> win_stack_fpo_info, others ignored")
+WM = "StackInfoWin::memory_range (types.rs)"
+wm = match("if self.size <z_op:cmp> <z_c:int> { return None; } "
+           "Some(Range::new( <s:opd>, <e_l:opd>.checked_add(<e_r:opd> as u64)? - <one:int>, ))",
+           block_after(ty, r"impl StackInfoWin \{\s*pub fn memory_range\(&self\) -> Option<Range<u64>> \{", WM), WM)
+RS = "parser-local into_rangemap_safe (parser.rs)"
+rs = match("input.sort_by_key(|x| x.0); let mut vec: Vec<(Range<u64>, V)> = Vec::with_capacity(input.len()); "
+           "for (range, val) in input { if let Some((last_range, last_val)) = vec.last_mut() { "
+           "if <a_l:opd> <a_op:cmp> <a_r:opd> && val != *last_val { continue; } "
+           "if <b_l:opd> <b_op:cmp> <b_r:opd>.saturating_add(<b_one:int>) && &val == last_val { "
+           "last_range.end = std::cmp::max(<m_l:opd>, <m_r:opd>); continue; } } vec.push((range, val)); } "
+           "RangeMap::try_from_iter(vec).unwrap()",
+           block_after(pa, r"fn into_rangemap_safe<V: Clone \+ Eq \+ Debug>\(mut input: Vec<\(Range<u64>, V\)>\) -> RangeMap<u64, V> \{", RS), RS)
+E_RS = {"range.start": "(fst r)", "range.end": "(snd r)", "last_range.start": "(fst lr)", "last_range.end": "(snd lr)"}
+
 # ============================================================================ lib.rs (Symbolizer), minidump-unwind
 lib = read("breakpad-symbols/src/lib.rs")
 SF = "Symbolizer::fill_symbol (breakpad-symbols/src/lib.rs)"
@@ -446,6 +472,44 @@ Definition g_line_entries (ls : list line_rec) : list (option range * line_rec) 
   map (fun l => (g_line_range l, l)) (filter g_line_keep ls).
 Definition g_inl_keep (e : inl_rec) : bool := %(ir)s.
 
+(* ---- parser.rs: the STACK WIN repair and the FUNC / STACK WIN table builder *)
+Definition g_win_range (w : win_rec) : option range :=
+  let base := w_addr w in let size := w_size w in
+  if %(wm_zero)s then None
+  else match checked_add 64 %(wm_el)s %(wm_er)s with
+       | Some e => Some (%(wm_s)s, e - %(wm_one)s)
+       | None => None
+       end.
+Definition g_win_insert (acc : list (range * win_rec)) (w : win_rec) : outcome (list (range * win_rec)) :=
+  match g_win_range w with
+  | None => Ret acc
+  | Some mr =>
+      match acc with
+      | [] => Ret [(mr, w)]
+      | (lr, lw) :: acc' =>
+          if intersects lr mr then
+            if %(wi_cmp)s then
+              let lw' := mk_win (w_addr lw) (wrap32 (%(wi_sl)s - %(wi_sr)s)) (w_psize lw) (w_tag lw) in
+              match g_win_range lw' with
+              | Some lr' => Ret ((mr, w) :: (lr', lw') :: acc')
+              | None => Panic PANIC_WIN_UNWRAP
+              end
+            else if negb (range_eqb lr mr) then Ret acc
+            else Ret ((mr, w) :: acc)
+          else Ret ((mr, w) :: acc)
+      end
+  end.
+Definition g_merge_step {V : Type} (eqb : V -> V -> bool) (acc : list (range * V)) (rv : range * V) : list (range * V) :=
+  match acc with
+  | [] => [rv]
+  | (lr, lv) :: acc' =>
+      let '(r, v) := rv in
+      if %(rs_a)s && negb (eqb v lv) then acc
+      else if (%(rs_bop)s %(rs_bl)s (sat_add 64 %(rs_br)s %(rs_bone)s)) && eqb v lv
+           then ((fst lr, Z.max %(rs_ml)s %(rs_mr)s), lv) :: acc'
+           else rv :: acc
+  end.
+
 (* ---- lib.rs / minidump-unwind *)
 Definition g_gsaa_instr (address : Z) : Z := %(gs_a)s.
 Definition g_gsaa_base : Z := %(gs_base)s.
@@ -478,6 +542,11 @@ Definition g_frame_inlines (l : list iframe) : list iframe := %(fl_rev)s l.
     pn=opd(E_PUB, fs["pn"], FS), pps=opd(E_PUB, fs["pps"], FS),
     lf=cmp_(fi, "lf_op", "lf_l", "lf_r", E_FIL, FI), le_l=opd(E_FIL, fi["le_l"], FI), le_r=opd(E_FIL, fi["le_r"], FI),
     le_one=fi["le_one"], lr_s=opd(E_FIL, fi["lr_s"], FI), ir=cmp_(fi, "ir_op", "ir_l", "ir_r", E_FII, FI),
+    wm_zero=cmp_({"o": wm["z_op"], "l": "self.size", "r": wm["z_c"]}, "o", "l", "r", E_MR, WM),
+    wm_el=opd(E_MR, wm["e_l"], WM), wm_er=opd(E_MR, wm["e_r"], WM), wm_s=opd(E_MR, wm["s"], WM), wm_one=wm["one"],
+    wi_cmp=cmp_(wi, "c_op", "c_l", "c_r", E_WI, WI), wi_sl=opd(E_WI, wi["s_l"], WI), wi_sr=opd(E_WI, wi["s_r"], WI),
+    rs_a=cmp_(rs, "a_op", "a_l", "a_r", E_RS, RS), rs_bop=CMP[rs["b_op"]], rs_bl=opd(E_RS, rs["b_l"], RS), rs_br=opd(E_RS, rs["b_r"], RS),
+    rs_bone=rs["b_one"], rs_ml=opd(E_RS, rs["m_l"], RS), rs_mr=opd(E_RS, rs["m_r"], RS),
     gs_a=opd({"address": "address"}, gs["a"], GS), gs_base=gs_base,
     fl_k=opd({"frame.instruction": "instr"}, fl["k"], FL), fl_rev="@rev iframe" if fl["rev"] else "(fun x : list iframe => x)",
 )
